@@ -32,7 +32,7 @@ PROBES = [
     "event_items", "event_checked", "pair_checked_no_crossing", "crossing_with_event", "bisect_sharpness_checked", "label_checked",
     "two_listeners_fired_same_step", "listener_reused_sequentially", "reuse_after_cancel", "two_live_tasks_same_object",
     "visibility_skipped_below_horizon", "visibility_caller_list_reused", "iteration_started_from_an_event_state", "sample_exactly_on_a_zero", "ephem_iterated_from_just_after_a_crossing", "light_model_checked", "condition_false_no_event",
-    "interleaved_shared_listener_interference", "same_listener_object_listed_twice",
+    "interleaved_shared_listener_interference", "same_listener_object_listed_twice", "listeners_relayed_to_another_satellite",
 ]
 REAL_VS_STUB = "real: listeners, Speaker.listen/_bisect, propagators, Ephem, stations, frames, analytic Sun; stub: wall clock (virtual, jumped before TerminatorListener()), EOP storage (simulated disk); oracle: pristine node for states at arbitrary dates + independent numpy models of every watched quantity"
 ASSUMPTIONS = [
@@ -227,6 +227,8 @@ def gen_plan(rng, tier, i):
     import random
 
     child = random.Random("c10-child:" + repr(len(ops)) + repr(knobs.get("eps_bisect_us")) + repr([o.get("task") for o in ops]))  # added after the first version: own generator
+    if knobs.get("post") and child.random() < 0.3:
+        knobs["post"] = dict(knobs["post"], kind="relay")
     for st_ in knobs.get("stations", []):
         if st_.get("mask") and child.random() < 0.35:
             # a mask with a steep wall (a building, a cliff) over part of the azimuths: the satellite may come out from behind it while
@@ -723,6 +725,35 @@ def post_scenarios(sim, plan, ctx):
                             {"kind": "sample_flagged_as_event", "scenario": "from_event"},
                             f"post-scenario A: iterating from the state of a '{ev.event}' event with the same listener, the plain sample at +{off:.1f} s carries the event '{p.event}'",
                         )
+        elif post["kind"] == "relay":
+            # D. the same listener objects watch satellite A over [t0, t1], then satellite B over [t1, t2] (a relay: the second
+            #    iteration starts at the date the first one ended on): the second stream is the one fresh listeners give
+            kep_b = list(kep)
+            kep_b[2] = (kep[2] + 0.6) % 3.0 + 0.05
+            kep_b[3] = kep[3] + 1.0
+            kep_b[5] = kep[5] + 2.0
+            t1 = date + td(seconds=6 * step)
+
+            def stream(ls_):
+                a = n.Orbit(kep, date, "keplerian", "EME2000", Kepler())
+                b = n.Orbit(kep_b, date, "keplerian", "EME2000", Kepler())
+                for _ in a.iter(stop=t1, step=td(seconds=step), listeners=ls_):
+                    pass
+                return [((p_.date - t1).total_seconds(), str(p_.event) if p_.event is not None else None) for p_ in b.iter(start=t1, stop=td(seconds=1.2 * period), step=td(seconds=step), listeners=ls_)]
+
+            ctx.probe("listeners_relayed_to_another_satellite")
+            got = stream([L.NodeListener(), L.ApsideListener()])
+            la, lb = L.NodeListener(), L.ApsideListener()
+            b2 = n.Orbit(kep_b, date, "keplerian", "EME2000", Kepler())
+            ref = [((p_.date - t1).total_seconds(), str(p_.event) if p_.event is not None else None) for p_ in b2.iter(start=t1, stop=td(seconds=1.2 * period), step=td(seconds=step), listeners=[la, lb])]
+            ctx.checks += 1
+            if got != ref:
+                diff = next((k_ for k_ in range(min(len(got), len(ref))) if got[k_] != ref[k_]), min(len(got), len(ref)))
+                ctx.violate(
+                    "history-independence",
+                    {"kind": "stream_differs_from_fresh_run", "scenario": "relay"},
+                    f"post-scenario D: listeners that watched another satellite up to the date this iteration starts on give {len(got)} items, fresh listeners {len(ref)}; first difference at item {diff}: {got[diff] if diff < len(got) else None} vs {ref[diff] if diff < len(ref) else None}",
+                )
         elif post["kind"] == "ephem_start_after_crossing":
             # C. an ephemeris iterated over its own points (no step) from a point that lies just *after* a crossing, forwards, and
             #    from the point just *before* it, backwards: nothing is reported outside the requested span
